@@ -170,7 +170,8 @@ public:
             std::coroutine_handle<> out = pop();
             void *me_addr = h.address();
             //check, whether my coroutine handle is also in the list (to avoid double insert)
-            bool me_included = false;
+            //(it can also be the handle which has been just popped for the symmetric transfer)
+            bool me_included = out.address() == me_addr;
             for (auto x: *this) {
                 me_included |= x == me_addr;
                 coro_queue::instance->push(std::coroutine_handle<>::from_address(x));
